@@ -187,6 +187,7 @@ pub fn build(quick: bool) -> Fams {
         Named { name: "text(100000)".into(), data: text(17, 100_000) },
         Named { name: "lcg(70000)".into(), data: lcg_bytes(3, 70_000) },
         Named { name: "rep(0x00,98321)".into(), data: rep(0, 3 * w + 17) },
+        Named { name: "rep(0xff,66000)".into(), data: rep(0xff, 66_000) },
         Named { name: "periodic(32506,66000)".into(), data: periodic(w - 262, 66_000) },
         Named { name: "far(32506)".into(), data: far(w - 262, 300) },
         Named { name: "far(32507)".into(), data: far(w - 261, 300) },
